@@ -166,6 +166,22 @@ theorem ifaceRx_router_mac (ifs : List Iface) (i : Iface) (f f' : Frame) (h : if
 
 theorem subjectToAcl_ttl (f : Frame) (x : Nat) : subjectToAcl { f with ttl := x } = subjectToAcl f := rfl
 
+theorem secondEntry_mem (soft : Soft W) (e : FwEntry) (s : Node W) (f : Frame) (e2 : FwEntry)
+    (h : secondEntry soft e s f = some e2) : e2 ∈ nextEntries e := by
+  cases e <;> simp only [secondEntry] at h
+  · injection h with h; subst h; split <;> simp [nextEntries]
+  · cases h
+  · cases h
+  · injection h with h; subst h; split <;> simp [nextEntries]
+  · cases h
+  · split at h
+    · split at h
+      · injection h with h; subst h; simp [nextEntries]
+      · split at h
+        · injection h with h; subst h; simp [nextEntries]
+        · cases h
+    · cases h
+
 /-! ## 3. the cut theorem with a frame class -/
 
 section cutC
@@ -186,8 +202,9 @@ inductive RoleC (W : Type)
   | routerOff (soft : Soft W)
   /-- a router whose list denies every packet of class `Cp`; `ifs` = its (fixed) interfaces -/
   | routerDenyC (soft : Soft W) (Cp : Packet → Prop) (ifs : List Iface)
-  /-- a firewall; `D` = the entry points whose list denies every packet of class `Cp` -/
-  | fwDenyC (soft : Soft W) (Cp : Packet → Prop) (D : FwEntry → Bool)
+  /-- a firewall; `D` = the entry points whose list denies every packet of class `Cp`; `Z` = the second entry points
+      for which the forwarding hypothesis is asked instead (zones that do not lead to the protected side) -/
+  | fwDenyC (soft : Soft W) (Cp : Packet → Prop) (D : FwEntry → Bool) (Z : FwEntry → Prop)
   | frozen (soft : Soft W) (s0 : Node W)
 
 def invC (sys : Sys N Nat Frame (Node W)) (side : N → Bool) (role : N → RoleC W) (n : N) (s : Node W) : Prop :=
@@ -196,12 +213,13 @@ def invC (sys : Sys N Nat Frame (Node W)) (side : N → Bool) (role : N → Role
   | .ifaceDown _ => BoundaryDown sys side n s
   | .routerOff _ => s.kind = .router ∧ s.on = false
   | .routerDenyC _ Cp ifs => s.kind = .router ∧ DeniesClass Cp (s.acls .router) ∧ s.ifaces = ifs
-  | .fwDenyC _ Cp D => s.kind = .firewall ∧ ∀ e, D e = true → DeniesClass Cp (s.acls (entryAcl e))
+  | .fwDenyC _ Cp D _ => s.kind = .firewall ∧ ∀ e, D e = true → DeniesClass Cp (s.acls (entryAcl e))
   | .frozen _ s0 => s = s0 ∧ ∀ p, SideFacing sys side n p → portEnabled s0 p = false
 
 /-- what remains a hypothesis at a firewall port whose *first* list does not deny the class -/
 structure FwSecondOK (sys : Sys N Nat Frame (Node W)) (side : N → Bool) (Cl : N → Nat → Frame → Prop)
-    (role : N → RoleC W) (n : N) (soft : Soft W) (Cp : Packet → Prop) (D : FwEntry → Bool) (p : Nat) (e : FwEntry) : Prop where
+    (role : N → RoleC W) (n : N) (soft : Soft W) (Cp : Packet → Prop) (D : FwEntry → Bool) (Z : FwEntry → Prop)
+    (p : Nat) (e : FwEntry) : Prop where
   /-- frames addressed to an open port of the firewall itself: its own software's answers stay on the attacker side -/
   session : ∀ s f, invC sys side role n s → Cp f.pkt →
     SafeAct sys side (FromSideC sys side Cl) (invC sys side role) n (guardSends portEnabled (soft.session s p f))
@@ -210,7 +228,7 @@ structure FwSecondOK (sys : Sys N Nat Frame (Node W)) (side : N → Bool) (Cl : 
     SafeAct sys side (FromSideC sys side Cl) (invC sys side role) n (guardSends portEnabled (soft.dmzLookup s p f))
   /-- a second entry point whose list does not deny the class: what the firewall does there (verdict, `process_frame`)
       stays on the attacker side — i.e. a frame resolved to a zone is forwarded into that zone only (C08's concern) -/
-  final : ∀ s f e2, invC sys side role n s → Cp f.pkt → secondEntry soft e s f = some e2 → D e2 = false →
+  final : ∀ s f e2, invC sys side role n s → Cp f.pkt → secondEntry soft e s f = some e2 → D e2 = false → Z e2 →
     SafeAct sys side (FromSideC sys side Cl) (invC sys side role) n (guardSends portEnabled (fwFinal soft e2 s p f))
 
 def RoleOKC (sys : Sys N Nat Frame (Node W)) (side : N → Bool) (Cl : N → Nat → Frame → Prop)
@@ -227,9 +245,9 @@ def RoleOKC (sys : Sys N Nat Frame (Node W)) (side : N → Bool) (Cl : N → Nat
       ∀ s p i f f', invC sys side role n s → SideFacing sys side n p → Cl n p f → s.ifaces[p]? = some i →
         ifaceRx s.kind s.ifaces i f = .up f' → subjectToAcl f' = some false →
         SafeAct sys side (FromSideC sys side Cl) (invC sys side role) n (guardSends portEnabled (permitted soft s p f'))
-  | .fwDenyC soft Cp D => sys.handler n = nodeRx soft ∧ (∀ p f, Cl n p f → Cp f.pkt) ∧
+  | .fwDenyC soft Cp D Z => sys.handler n = nodeRx soft ∧ (∀ p f, Cl n p f → Cp f.pkt) ∧
       ∀ p e, SideFacing sys side n p → portEntry p = some e →
-        D e = true ∨ FwSecondOK sys side Cl role n soft Cp D p e
+        D e = true ∨ (FwSecondOK sys side Cl role n soft Cp D Z p e ∧ ∀ e2 ∈ nextEntries e, D e2 = true ∨ Z e2)
   | .frozen soft _ => sys.handler n = nodeRx soft
 
 omit [DecidableEq N] in
@@ -356,7 +374,7 @@ theorem C06_cut_class (sys : Sys N Nat Frame (Node W)) (side : N → Bool) (Cl :
             simp only [Node.setAcl, if_true]
             exact deniesClass_stable _ _ _ hI'.2.1
       · exact SafeAct.done hI
-  | fwDenyC soft Cp D =>
+  | fwDenyC soft Cp D Z =>
     simp only [hr] at hok
     obtain ⟨hh, hcls, hports⟩ := hok
     have hinv : ∀ s', invC sys side role n s' ↔
@@ -393,7 +411,8 @@ theorem C06_cut_class (sys : Sys N Nat Frame (Node W)) (side : N → Bool) (Cl :
         | none => exact SafeAct.done hI
         | some e =>
           -- a second entry point: denies the class, or is covered by the hypothesis
-          have hfinal : ∀ (ok : FwSecondOK sys side Cl role n soft Cp D p e) (e2 : FwEntry) (s' : Node W),
+          have hfinal : ∀ (ok : FwSecondOK sys side Cl role n soft Cp D Z p e ∧ ∀ e2 ∈ nextEntries e, D e2 = true ∨ Z e2)
+              (e2 : FwEntry) (s' : Node W),
               invC sys side role n s' → secondEntry soft e s' f' = some e2 →
               SafeAct sys side (FromSideC sys side Cl) (invC sys side role) n
                 (guardSends portEnabled (fwFinal soft e2 s' p f')) := by
@@ -403,7 +422,10 @@ theorem C06_cut_class (sys : Sys N Nat Frame (Node W)) (side : N → Bool) (Cl :
               have hd : (isPermitted (s'.acls (entryAcl e2)) f'.pkt).1 = false := ((hinv s').mp hs').2 e2 hD2 f'.pkt hcp
               simp only [fwFinal, hd, Bool.not_false, if_true, guardSends]
               exact SafeAct.done (hbump s' e2 f'.pkt hs')
-            | false => exact ok.final s' f' e2 hs' hcp hsec hD2
+            | false =>
+              rcases ok.2 e2 (secondEntry_mem soft e s' f' e2 hsec) with h | h
+              · rw [hD2] at h; cases h
+              · exact ok.1.final s' f' e2 hs' hcp hsec hD2 h
           have hI1 := hbump s e f'.pkt hI
           rcases hports p e hK.1 hpe with hD | ok
           · have hd : (isPermitted (s.acls (entryAcl e)) f'.pkt).1 = false := hI'.2 e hD f'.pkt hcp
@@ -416,7 +438,7 @@ theorem C06_cut_class (sys : Sys N Nat Frame (Node W)) (side : N → Bool) (Cl :
               simp only [Bool.not_true, Bool.false_eq_true, if_false]
               have hI2 := hsw _ (soft.learn (s.setAcl (entryAcl e) (isPermitted (s.acls (entryAcl e)) f'.pkt).2.2) p f') hI1
               split
-              · exact ok.session _ f' hI2 hcp
+              · exact ok.1.session _ f' hI2 hcp
               · cases e with
                 | extIn =>
                   simp only [fwNext]
@@ -431,7 +453,7 @@ theorem C06_cut_class (sys : Sys N Nat Frame (Node W)) (side : N → Bool) (Cl :
                 | dmzOut =>
                   simp only [fwNext]
                   rw [guard_bind]
-                  refine safe_bind sys side _ _ n _ _ (ok.lookup rfl _ f' hI2 hcp) ?_
+                  refine safe_bind sys side _ _ n _ _ (ok.1.lookup rfl _ f' hI2 hcp) ?_
                   intro s3 hs3
                   cases hq : soft.dmzOutNic s3 f' with
                   | none => simp only [guardSends]; exact SafeAct.done hs3
@@ -702,5 +724,253 @@ theorem C06_localOp_src_class (srcOk : Ip → Prop) (a : Script W) :
       | none => simp [hi] at hen
       | some i => simp only [ownSrc, hi]; exact hp i (List.mem_of_getElem? hi)
     · exact ih s
+
+/-! ## 6. the class-aware certificate is sound -/
+
+theorem netsDisjoint_sound (i j : Iface) (ip : Ip) (h : netsDisjoint i j = true) (h1 : i.inNet ip = true)
+    (h2 : j.inNet ip = true) : False := by
+  simp only [netsDisjoint, bne_iff_ne, ne_eq] at h
+  apply h
+  simp only [Iface.inNet, beq_iff_eq] at h1 h2
+  apply BitVec.eq_of_getLsbD_eq
+  intro k _
+  have a1 := congrArg (fun x => x.getLsbD k) h1
+  have a2 := congrArg (fun x => x.getLsbD k) h2
+  simp only [BitVec.getLsbD_and, BitVec.getLsbD_xor, BitVec.getLsbD_zero] at a1 a2 ⊢
+  revert a1 a2
+  cases ip.getLsbD k <;> cases i.ip.getLsbD k <;> cases j.ip.getLsbD k <;> cases i.mask.getLsbD k <;>
+    cases j.mask.getLsbD k <;> simp
+
+section certifyC
+variable (t : TopoC) (softs : Nat → Soft W) (hInt : Nat → Node W → Nat → Frame → Script W)
+
+def topoSysC : Sys Nat Nat Frame (Node W) :=
+  { handler := fun n => match t.role n with
+      | .interior => hInt n
+      | _ => nodeRx (softs n),
+    wire := t.wire }
+
+/-- the packets of the topology's class -/
+def clsP (p : Packet) : Prop := clsHolds t.cls p = true
+
+/-- the frames that circulate on the attacker side of a certified topology: packets of the class, and — when the
+topology says so — genuine ARP packets -/
+def ClT (_ : Nat) (_ : Nat) (f : Frame) : Prop :=
+  clsHolds t.cls f.pkt = true ∨ (t.arpExempt = true ∧ subjectToAcl f = some false)
+
+def topoRoleC (σ : St Nat (Node W)) (n : Nat) : RoleC W :=
+  match t.role n with
+  | .interior => .interior
+  | .ifaceDown => .ifaceDown (softs n)
+  | .routerOff => .routerOff (softs n)
+  | .routerDenyC => .routerDenyC (softs n) (clsP t) (σ n).ifaces
+  | .fwDenyC => .fwDenyC (softs n) (clsP t) (fun e => denyClassCheck t.cls ((σ n).acls (entryAcl e)))
+      (fun e2 => t.finalToProtected n e2 = false)
+  | .frozen => .frozen (softs n) (σ n)
+
+theorem wire_memC (n q m r : Nat) (h : t.wire n q = some (m, r)) : ((n, q), (m, r)) ∈ t.wires := by
+  unfold TopoC.wire at h
+  cases hf : t.wires.find? (fun w => w.1.1 == n && w.1.2 == q) with
+  | none => simp [hf] at h
+  | some w =>
+    simp only [hf, Option.map_some, Option.some.injEq] at h
+    have hp := List.find?_some hf
+    have hmem := List.mem_of_find?_eq_some hf
+    simp only [Bool.and_eq_true, beq_iff_eq] at hp
+    obtain ⟨⟨a, b⟩, c⟩ := w
+    simp only at hp h
+    obtain ⟨rfl, rfl⟩ := hp
+    subst h
+    exact hmem
+
+theorem certifyC_node (σ : St Nat (Node W)) (hc : certifyC t σ = true) (n : Nat) (hn : t.side n = true) :
+    certifyNodeC t n (σ n) = true := by
+  have hlt : n < t.nodes.length := by
+    unfold TopoC.side at hn
+    cases hx : t.nodes[n]? with
+    | none => simp [hx] at hn
+    | some x => exact (List.getElem?_eq_some_iff.mp hx).1
+  unfold certifyC at hc
+  have := List.all_eq_true.mp hc n (List.mem_range.mpr hlt)
+  simpa [hn] using this
+
+/-- **Soundness of the class-aware certificate**: if `certifyC` accepts, every attacker-side node satisfies its role's
+invariant; interior nodes have no wire leaving the attacker side; a class-denying router's boundary networks are
+disjoint from its attacker-facing ones; at a firewall every attacker-facing port either has a class-denying first list
+or every second entry point it can select has a class-denying list or guards a zone port with no wire to the protected
+side — and no ARP exemption is assumed. -/
+theorem C06_certifyC_sound (σ : St Nat (Node W)) (hc : certifyC t σ = true) (n : Nat) (hn : t.side n = true) :
+    invC (topoSysC t softs hInt) t.side (topoRoleC t softs σ) n (σ n) ∧
+    (t.role n = .interior → ∀ q m r, t.wire n q = some (m, r) → t.side m = true) ∧
+    (t.role n = .routerDenyC → ∀ p i q j ip, SideFacing (topoSysC t softs hInt) t.side n p → (σ n).ifaces[p]? = some i →
+      (σ n).ifaces[q]? = some j → i.inNet ip = true → j.inNet ip = true → ∀ m r', t.wire n q = some (m, r') → t.side m = true) ∧
+    (t.role n = .fwDenyC → t.arpExempt = false ∧
+      ∀ p e, SideFacing (topoSysC t softs hInt) t.side n p → portEntry p = some e →
+        denyClassCheck t.cls ((σ n).acls (entryAcl e)) = true ∨
+        ∀ e2 ∈ nextEntries e, denyClassCheck t.cls ((σ n).acls (entryAcl e2)) = true ∨ t.finalToProtected n e2 = false) := by
+  have hcn := certifyC_node t σ hc n hn
+  unfold certifyNodeC at hcn
+  cases hr : t.role n with
+  | interior =>
+    simp only [hr] at hcn
+    refine ⟨by simp [invC, topoRoleC, hr], fun _ q m r hw => ?_, (fun h => nomatch h), (fun h => nomatch h)⟩
+    have := List.all_eq_true.mp hcn _ (wire_memC t n q m r hw)
+    simpa using this
+  | ifaceDown =>
+    simp only [hr] at hcn
+    refine ⟨?_, (fun h => nomatch h), (fun h => nomatch h), (fun h => nomatch h)⟩
+    simp only [invC, topoRoleC, hr]
+    intro q m r hw hm
+    have := List.all_eq_true.mp hcn _ (wire_memC t n q m r hw)
+    simpa [hm] using this
+  | routerOff =>
+    simp only [hr] at hcn
+    refine ⟨?_, (fun h => nomatch h), (fun h => nomatch h), (fun h => nomatch h)⟩
+    simp only [invC, topoRoleC, hr]
+    simpa using hcn
+  | routerDenyC =>
+    simp only [hr, Bool.and_eq_true, beq_iff_eq] at hcn
+    refine ⟨?_, (fun h => nomatch h), fun _ => ?_, (fun h => nomatch h)⟩
+    · simp only [invC, topoRoleC, hr]
+      exact ⟨hcn.1.1, C06_denyClassCheck_sound _ _ hcn.1.2, trivial⟩
+    · intro p i q j ip hsf hi hj h1 h2 m r' hw
+      obtain ⟨n', q', hs', hw'⟩ := hsf
+      cases hsm : t.side m with
+      | true => rfl
+      | false =>
+        exfalso
+        have ha := List.all_eq_true.mp hcn.2 _ (wire_memC t n' q' n p hw')
+        simp only [bne_self_eq_false, hs', Bool.not_true, Bool.false_or] at ha
+        have hb := List.all_eq_true.mp ha _ (wire_memC t n q m r' hw)
+        simp only [bne_self_eq_false, hsm, Bool.false_or, hi, hj] at hb
+        exact netsDisjoint_sound i j ip hb h1 h2
+  | fwDenyC =>
+    simp only [hr, Bool.and_eq_true, beq_iff_eq, Bool.not_eq_true'] at hcn
+    refine ⟨?_, (fun h => nomatch h), (fun h => nomatch h), fun _ => ⟨hcn.1.2, ?_⟩⟩
+    · simp only [invC, topoRoleC, hr]
+      exact ⟨hcn.1.1, fun e he => C06_denyClassCheck_sound _ _ he⟩
+    · intro p e hsf hpe
+      obtain ⟨n', q', hs', hw'⟩ := hsf
+      have ha := List.all_eq_true.mp hcn.2 _ (wire_memC t n' q' n p hw')
+      simp only [bne_self_eq_false, hs', Bool.not_true, Bool.false_or, hpe, fwDenySet, Bool.or_eq_true,
+        List.all_eq_true, Bool.not_eq_true'] at ha
+      exact ha
+  | frozen =>
+    simp only [hr] at hcn
+    refine ⟨?_, (fun h => nomatch h), (fun h => nomatch h), (fun h => nomatch h)⟩
+    simp only [invC, topoRoleC, hr, true_and]
+    intro p hsf
+    obtain ⟨n', q, hs', hw⟩ := hsf
+    have := List.all_eq_true.mp hcn _ (wire_memC t n' q n p hw)
+    simpa [hs'] using this
+
+/-- **C06 for a scenario certified for a frame class.**  If `certifyC` accepts, then — for all software of the blocking
+elements that keeps boundary interfaces down (`SoftKeeps`, see `C06_gen_enable_sites`), whose handling of a router's
+ACL-exempt ARP packets stays on the attacker side (proved for `routerArpSoft`: `C06_router_arp_safe`), and, at a
+firewall port whose first list lets the class pass, whose session replies, DMZ look-ups and forwarding *into zones that
+have no wire to the protected side* stay on the attacker side — and for all attacker-side nodes that emit only frames
+of the class, any sequence of operations on interior nodes leaves every protected node (and every frozen one) exactly
+as in `σ`. -/
+theorem C06_certifiedC_unchanged (σ : St Nat (Node W)) (hc : certifyC t σ = true)
+    (hclosed : ∀ n, t.side n = true → (t.role n = .interior ∨ t.role n = .ifaceDown) → ∀ s p f,
+      SideFacing (topoSysC t softs hInt) t.side n p → ClT t n p f →
+      EmitsCl (topoSysC t softs hInt) (ClT t) n ((topoSysC t softs hInt).handler n s p f))
+    (hkeep : ∀ n, t.side n = true → t.role n = .ifaceDown →
+      SoftKeeps (softs n) (BoundaryDown (topoSysC t softs hInt) t.side n))
+    (hexempt : ∀ n, t.side n = true → t.role n = .routerDenyC → ∀ s p i f f',
+      invC (topoSysC t softs hInt) t.side (topoRoleC t softs σ) n s → SideFacing (topoSysC t softs hInt) t.side n p →
+      ClT t n p f → s.ifaces[p]? = some i → ifaceRx s.kind s.ifaces i f = .up f' → subjectToAcl f' = some false →
+      SafeAct (topoSysC t softs hInt) t.side (FromSideC (topoSysC t softs hInt) t.side (ClT t))
+        (invC (topoSysC t softs hInt) t.side (topoRoleC t softs σ)) n (guardSends portEnabled (permitted (softs n) s p f')))
+    (hfw : ∀ n, t.side n = true → t.role n = .fwDenyC → ∀ p e, SideFacing (topoSysC t softs hInt) t.side n p →
+      portEntry p = some e → denyClassCheck t.cls ((σ n).acls (entryAcl e)) = false →
+      FwSecondOK (topoSysC t softs hInt) t.side (ClT t) (topoRoleC t softs σ) n (softs n) (clsP t)
+        (fun e => denyClassCheck t.cls ((σ n).acls (entryAcl e))) (fun e2 => t.finalToProtected n e2 = false) p e)
+    (ops : List (Nat × Op Nat Nat Frame (Node W)))
+    (hops : ∀ o ∈ ops, t.side o.2.node = true ∧ t.role o.2.node = .interior ∧
+      ∀ s, EmitsCl (topoSysC t softs hInt) (ClT t) o.2.node (o.2.script s)) :
+    ∀ m, (t.side m = false ∨ t.role m = .frozen) → runOps (topoSysC t softs hInt) σ ops m = σ m := by
+  have hroles : ∀ n, t.side n = true → RoleOKC (topoSysC t softs hInt) t.side (ClT t) (topoRoleC t softs σ) n := by
+    intro n hn
+    have hs := C06_certifyC_sound t softs hInt σ hc n hn
+    unfold RoleOKC
+    cases hr : t.role n with
+    | interior =>
+      simp only [topoRoleC, hr]
+      exact ⟨hs.2.1 hr, hclosed n hn (Or.inl hr)⟩
+    | ifaceDown =>
+      simp only [topoRoleC, hr]
+      refine ⟨by simp [topoSysC, hr], hkeep n hn hr, ?_⟩
+      intro s p f hsf hcl
+      have := hclosed n hn (Or.inr hr) s p f hsf hcl
+      simpa [topoSysC, hr] using this
+    | routerOff => simp only [topoRoleC, hr]; simp [topoSysC, hr]
+    | routerDenyC =>
+      simp only [topoRoleC, hr]
+      refine ⟨by simp [topoSysC, hr], ?_, hexempt n hn hr⟩
+      intro p f hcl hsub
+      rcases hcl with h | ⟨_, h⟩
+      · exact h
+      · rw [hsub] at h; cases h
+    | fwDenyC =>
+      simp only [topoRoleC, hr]
+      obtain ⟨harp, hports⟩ := hs.2.2.2 hr
+      refine ⟨by simp [topoSysC, hr], ?_, ?_⟩
+      · intro p f hcl
+        rcases hcl with h | ⟨h, _⟩
+        · exact h
+        · rw [harp] at h; cases h
+      · intro p e hsf hpe
+        cases hD : denyClassCheck t.cls ((σ n).acls (entryAcl e)) with
+        | true => exact Or.inl rfl
+        | false =>
+          right
+          refine ⟨hfw n hn hr p e hsf hpe hD, ?_⟩
+          rcases hports p e hsf hpe with h | h
+          · rw [hD] at h; cases h
+          · exact h
+    | frozen => simp only [topoRoleC, hr]; simp [topoSysC, hr]
+  have hσ : ∀ n, t.side n = true → invC (topoSysC t softs hInt) t.side (topoRoleC t softs σ) n (σ n) :=
+    fun n hn => (C06_certifyC_sound t softs hInt σ hc n hn).1
+  have hops' : ∀ o ∈ ops, SafeOp (topoSysC t softs hInt) t.side (FromSideC (topoSysC t softs hInt) t.side (ClT t))
+      (invC (topoSysC t softs hInt) t.side (topoRoleC t softs σ)) o.2 := by
+    intro o ho
+    obtain ⟨h1, h2, h3⟩ := hops o ho
+    exact C06_safeOp_interior_class _ _ _ _ o.2 h1 (by simp [topoRoleC, h2])
+      ((C06_certifyC_sound t softs hInt σ hc o.2.node h1).2.1 h2) h3
+  intro m hm
+  cases hsm : t.side m with
+  | false => exact C06_blocked_unchanged_class _ _ _ _ hroles ops hops' σ hσ m hsm
+  | true =>
+    rcases hm with hm | hm
+    · rw [hsm] at hm; cases hm
+    · have h := (runOps_good _ t.side _ _ (C06_cut_class _ t.side (ClT t) _ hroles) ops σ hops' hσ).1 m hsm
+      have h0 := hσ m hsm
+      simp only [invC, topoRoleC, hm] at h h0
+      rw [h.1]
+
+end certifyC
+
+/-- the class-aware certificate generalises the any-any one: a list that passes `denyAllCheck` passes the class scan
+for the pattern that describes every packet -/
+theorem C06_denyAll_is_class_any (a : Acl) (h : denyAllCheck a = true) : denyClassCheck [anyPattern] a = true := by
+  unfold denyAllCheck at h
+  simp only [denyClassCheck, List.all_cons, List.all_nil, Bool.and_true]
+  have key : ∀ rules : List (Option Rule),
+      (match firstSome rules with | some r => anyAnyDeny r | none => a.implicit == .deny) = true →
+      denyScan anyPattern rules a.implicit = true := by
+    intro rules
+    induction rules with
+    | nil => intro h; simpa [firstSome, denyScan] using h
+    | cons x rest ih =>
+      cases x with
+      | none => intro h; simpa [denyScan] using ih (by simpa [firstSome] using h)
+      | some r =>
+        intro h
+        simp only [firstSome, anyAnyDeny, Bool.and_eq_true, beq_iff_eq, Option.isNone_iff_eq_none] at h
+        obtain ⟨⟨⟨⟨⟨h1, h2⟩, h3⟩, h4⟩, h5⟩, h6⟩ := h
+        simp [denyScan, h1, covers, coversOpt, h2, h3, h4, h5, h6]
+  exact key a.rules h
+
 
 end Primaite.Filter
